@@ -96,8 +96,8 @@ class ProgHarness(Harness):
     max_paths = 600
     max_decisions = 400
     cut_allowance = 0               # the family bounds all trip counts: no path may be cut
-    timeout_ms = 15000
-    prove_timeout_ms = 60000
+    timeout_ms = 60000
+    prove_timeout_ms = 120000
     prove_uf_first = True
     shim_modules = ()
     max_iter = 24
